@@ -4,10 +4,37 @@ import schedcheck
 PROPS = ["Props/C06.v"]
 
 
+def dated_milestones(ctx):
+    """milestones given by ONE date of their own: forward ones by their end instead of their start, and - in backward
+    projects - milestones pinned by a start inside containers that carry a deadline"""
+    import gens
+    import projects
+    out = []
+    for ap in gens.family(ctx, "mstrees", ctx.n(60, 400)):
+        for _, n in projects.walk(ap["tasks"]):
+            if "milestone" in n and n.get("start") is not None and n.get("end") is None and ctx.rng.random() < 0.6:
+                n["end"] = n.pop("start")
+        ap["_family"] = "msend"
+        out.append(ap)
+    for ap in gens.family(ctx, "alapnest", ctx.n(40, 300)) + gens.family(ctx, "alap", ctx.n(40, 300)):
+        k = 0
+        for _, c in projects.walk(ap["tasks"]):
+            if "kids" in c and c.get("end") is not None and ctx.rng.random() < 0.7:
+                d = c["end"] - c["end"] % 86400 - ctx.rng.randint(0, 4) * 86400 + ctx.rng.choice([0, 9, 13]) * 3600
+                if d > ap["start"]:
+                    c["kids"].append({"id": f"mk{k}", "milestone": True, "start": d})
+                    k += 1
+        if k:
+            ap["_family"] = "alapmsstart"
+            out.append(ap)
+    return out
+
+
 def run(ctx):
     schedcheck.run(ctx, "C06", PROPS,
                    [("subslot", 200, 2000), ("deps", 60, 600), ("alap", 100, 800), ("alapcore", 80, 800), ("sd", 100, 1000), ("sdteam", 40, 400), ("taskalap", 40, 300), ("core", 40, 300), ("alapfull", 60, 600), ("alapslot0", 30, 200), ("fwdend", 80, 600), ("alapsub", 40, 300)],
                    ["c06"],
                    ["a first/last slot holding less than one second of work cannot be told from no work through dates rounded to the second",
                     "the theorem covers the whole-slot frame; the position inside a shared slot is checked on the implementation by the oracle"],
-                   "corpus first; tasks that begin and finish inside one slot, chains and fans of sub-slot tasks on one resource, 3+ tasks meeting in a slot, mid-slot dependency bounds, milestones at mid-slot bounds and in dated containers, ASAP and ALAP, backward projects whose work is pushed back to the very first slot")
+                   "corpus first; tasks that begin and finish inside one slot, chains and fans of sub-slot tasks on one resource, 3+ tasks meeting in a slot, mid-slot dependency bounds, milestones at mid-slot bounds and in dated containers, ASAP and ALAP, backward projects whose work is pushed back to the very first slot; milestones given by one date of their own (forward by their end, backward by a start inside containers with deadlines)",
+                   extra_cases=dated_milestones)
